@@ -8,7 +8,7 @@ from ..astutil import ancestors, call_name, calls_in, dotted, own_exprs, unparse
 from ..report import Registry, sub
 from ._helpers_rules_b import ordinal_keys
 from ._helpers_str_v import (
-    Variant, _block_of, _is_empty_literal, bind_call, filter_atoms, fmt_atoms, resolve_name, root_base, shape_of,
+    Variant, _block_of, _is_empty_literal, bind_call, filter_atoms, fmt_atoms, loop_as_comprehension, resolve_name, root_base, shape_of,
 )
 
 R = Registry(
@@ -257,9 +257,25 @@ def r2(ctx):
             absmod = ix._abs_module(f.module, st.level, st.module)
             for a in st.names:
                 listed[a.asname or a.name] = absmod + "." + a.name
-    rets = [r for r in walk_local(f.node) if isinstance(r, ast.Return) and isinstance(r.value, ast.Tuple)]
-    ctx.require(len(rets) == 1, "_all_cython_modules does not return a tuple")
-    returned = {listed.get(e.id) for e in rets[0].value.elts if isinstance(e, ast.Name)}
+        elif isinstance(st, ast.Import):
+            for a in st.names:
+                if a.asname:
+                    listed[a.asname] = a.name
+
+    def seq_of(e, depth=0):
+        # the returned collection: a tuple / list display, possibly wrapped in tuple()/list() or held by a once-bound local
+        if isinstance(e, (ast.Tuple, ast.List)):
+            return e
+        if isinstance(e, ast.Call) and call_name(e) in ("tuple", "list") and len(e.args) == 1 and not e.keywords:
+            return seq_of(e.args[0], depth + 1)
+        if isinstance(e, ast.Name) and depth < 3:
+            v = _once_bound(f.node, e.id)
+            return seq_of(v, depth + 1) if v is not None else None
+        return None
+
+    rets = [seq_of(r.value) for r in walk_local(f.node) if isinstance(r, ast.Return) and r.value is not None]
+    ctx.require(len(rets) == 1 and rets[0] is not None, "_all_cython_modules does not return a tuple")
+    returned = {listed.get(e.id) for e in rets[0].elts if isinstance(e, ast.Name)}
     tree = {m.name for m in mods}
     ctx.check(returned == tree, f"{f.key}:table",
               f"_all_cython_modules() returns {sorted(x for x in returned if x)} but the tree has {sorted(tree)} "
@@ -268,7 +284,14 @@ def r2(ctx):
               f"{len(tree)} modules listed", f.loc)
     for m in mods:
         fn = m.functions.get("_is_compiled")
-        ok = fn is not None and any(isinstance(r, ast.Return) and r.value is not None and dotted(r.value) == "cython.compiled" for r in walk_local(fn.node))
+        def is_flag(e):
+            if isinstance(e, ast.Name):
+                e = _once_bound(fn.node, e.id)
+            if isinstance(e, ast.Call) and call_name(e) == "bool" and len(e.args) == 1:
+                e = e.args[0]
+            return e is not None and dotted(e) == "cython.compiled"
+        frets = [r for r in walk_local(fn.node) if isinstance(r, ast.Return)] if fn is not None else []
+        ok = fn is not None and bool(frets) and all(r.value is not None and is_flag(r.value) for r in frets)
         ctx.check(ok, f"{m.relpath}::_is_compiled", "does not define _is_compiled() returning cython.compiled",
                   "returns cython.compiled", m.path, nontrivial=False)
     # importers
@@ -345,14 +368,18 @@ def _c_int_names(fn):
     return out
 
 
-def _safe_source(e, cnames, consts, depth=0):
+def _safe_source(e, cnames, consts, depth=0, fn=None):
     """Is `e` an integer that fits the C type by construction?"""
     if depth > 5:
         return False
     if isinstance(e, ast.Constant) and isinstance(e.value, int):
         return True
     if isinstance(e, ast.Name):
-        return e.id in cnames or e.id in consts
+        if e.id in cnames or e.id in consts:
+            return True
+        # an untyped local bound once (`count = len(rows)` ... `size: cython.Py_ssize_t = count`)
+        v = _once_bound(fn, e.id)
+        return v is not None and _safe_source(v, cnames, consts, depth + 1, fn)
     if isinstance(e, ast.Call):
         nm = call_name(e) or ""
         if nm in ("len", "id", "_get_id", "PyList_GET_SIZE", "PyTuple_GET_SIZE"):
@@ -361,15 +388,35 @@ def _safe_source(e, cnames, consts, depth=0):
             return True
         return False
     if isinstance(e, ast.BinOp) and isinstance(e.op, (ast.Add, ast.Sub, ast.FloorDiv, ast.Mod)):
-        return _safe_source(e.left, cnames, consts, depth + 1) and _safe_source(e.right, cnames, consts, depth + 1)
+        return _safe_source(e.left, cnames, consts, depth + 1, fn) and _safe_source(e.right, cnames, consts, depth + 1, fn)
     if isinstance(e, ast.IfExp):
-        return _safe_source(e.body, cnames, consts, depth + 1) and _safe_source(e.orelse, cnames, consts, depth + 1)
+        return _safe_source(e.body, cnames, consts, depth + 1, fn) and _safe_source(e.orelse, cnames, consts, depth + 1, fn)
     if isinstance(e, ast.Attribute) and isinstance(e.value, ast.Name) and e.value.id == "self":
         return e.attr in cnames
     return False
 
 
-def _boolean_expr(e, bint_funcs) -> bool:
+def _once_bound(fn, name):
+    """value of local `name` when `fn` binds it exactly once, by a plain (annotated) assignment; else None"""
+    if fn is None or name in {x.arg for x in fn.args.posonlyargs + fn.args.args + fn.args.kwonlyargs}:
+        return None
+    vals, n_stores = [], 0
+    for n in walk_local(fn):
+        if isinstance(n, ast.Name) and n.id == name and isinstance(n.ctx, (ast.Store, ast.Del)):
+            n_stores += 1
+        if isinstance(n, ast.Assign) and len(n.targets) == 1 and isinstance(n.targets[0], ast.Name) and n.targets[0].id == name:
+            vals.append(n.value)
+        elif isinstance(n, ast.AnnAssign) and isinstance(n.target, ast.Name) and n.target.id == name and n.value is not None:
+            vals.append(n.value)
+    return vals[0] if len(vals) == 1 and n_stores == 1 else None
+
+
+def _boolean_expr(e, bint_funcs, fn=None, depth=0) -> bool:
+    if isinstance(e, ast.Name) and depth < 4:
+        v = _once_bound(fn, e.id)
+        return v is not None and _boolean_expr(v, bint_funcs, fn, depth + 1)
+    if isinstance(e, ast.IfExp):
+        return _boolean_expr(e.body, bint_funcs, fn, depth + 1) and _boolean_expr(e.orelse, bint_funcs, fn, depth + 1)
     if isinstance(e, ast.Constant) and isinstance(e.value, bool):
         return True
     if isinstance(e, ast.Compare):
@@ -377,7 +424,7 @@ def _boolean_expr(e, bint_funcs) -> bool:
     if isinstance(e, ast.UnaryOp) and isinstance(e.op, ast.Not):
         return True
     if isinstance(e, ast.BoolOp):
-        return all(_boolean_expr(v, bint_funcs) for v in e.values)
+        return all(_boolean_expr(v, bint_funcs, fn, depth + 1) for v in e.values)
     if isinstance(e, ast.Call):
         nm = (call_name(e) or "").rsplit(".", 1)[-1]
         return nm in ("isinstance", "issubclass", "hasattr", "bool", "callable") or nm in bint_funcs
@@ -459,7 +506,7 @@ def r3(ctx):
                                 srcs.extend(it.args)
                             else:
                                 srcs.append(it)
-                    bad = [unparse(s)[:40] for s in srcs if not _safe_source(s, set(cn), consts)]
+                    bad = [unparse(s)[:40] for s in srcs if not _safe_source(s, set(cn), consts, 0, fn)]
                     ctx.check(not bad, key,
                               f"local `{nm}: cython.{ct}` receives {bad}: an arbitrary Python integer is narrowed to a C integer only in "
                               f"the compiled build (OverflowError / wrap-around there, exact in pure Python)",
@@ -467,7 +514,7 @@ def r3(ctx):
             # -> cython.bint on Python-visible callables
             if fn.returns is not None and dotted(fn.returns) == "cython.bint" and visible:
                 rets = [r for r in walk_local(fn) if isinstance(r, ast.Return) and r.value is not None]
-                bad = [unparse(r.value)[:50] for r in rets if not _boolean_expr(r.value, bint_funcs)]
+                bad = [unparse(r.value)[:50] for r in rets if not _boolean_expr(r.value, bint_funcs, fn)]
                 ctx.check(not bad and rets, f"{m.relpath}::{q}:return-bint",
                           f"`{q}` -> cython.bint returns {bad}: the compiled build coerces to bool, the pure-Python build returns the object itself",
                           f"{len(rets)} return(s), all boolean expressions", f"{m.path}:{fn.lineno}")
@@ -681,14 +728,24 @@ def _resolve_private(ctx, m, call, actual, q, shared_of):
     what = f"argument for `{q}` at line {call.lineno}"
     e = actual.get(q)
     ctx.require(e is not None, f"{what}: not passed")
-    shapes = []
-    sh = shape_of(e)
-    if sh[0] == "name":
-        scope, binds = resolve_name(pm, call, sh[1])
-        ctx.require(scope is not None and binds and all(v is not None for v, _st in binds), f"{what}: `{sh[1]}` is not bound by plain assignments in an enclosing function")
-        shapes = [(shape_of(v), st, scope) for v, st in binds]
-    else:
-        shapes = [(sh, None, None)]
+    def final_shapes(expr, depth=0):
+        """[(shape, binding statement, scope)]: names resolved through their plain bindings (recursively: `t = tuple(v)`
+        where `v` is a local), a list filled by one loop read as the equivalent comprehension"""
+        sh0 = shape_of(expr)
+        if sh0[0] != "name":
+            return [(sh0, None, None)]
+        ctx.require(depth < 4, f"{what}: alias chain too long")
+        scope, binds = resolve_name(pm, call, sh0[1])
+        ctx.require(scope is not None and binds and all(v is not None for v, _st in binds), f"{what}: `{sh0[1]}` is not bound by plain assignments in an enclosing function")
+        out = []
+        for v, st in binds:
+            comp = loop_as_comprehension(pm, scope, sh0[1], v, st)
+            v2 = comp if comp is not None else v
+            for s3, st3, sc3 in final_shapes(v2, depth + 1):
+                out.append((s3, st3 if st3 is not None else st, sc3 if sc3 is not None else scope))
+        return out
+
+    shapes = final_shapes(e)
     results = set()
     for sh, st, scope in shapes:
         ctx.require(sh[0] in ("len", "indices_where", "empty"), f"{what}: value `{sh[-1]}` is not len(V) / indexes of V where ... / empty")
@@ -882,3 +939,80 @@ R.mutant("benign-compiled-many-rows-local-alias", RES,
 R.mutant("benign-caller-index-list-from-generator", RES,
          sub("            proc_valid = tuple(\n                [i for i, p in enumerate(processors) if p is not None]\n            )\n",
              "            proc_valid = tuple(\n                pos for pos, fn in enumerate(processors) if fn is not None\n            )\n"), None)
+
+# ---- rob-H2: shape variants (enumerate / ternary in the pure loop, swapped arms, aliases of builtins, index list built by a loop, locals for bint results and C-typed sizes); benign must stay silent
+R.mutant('benign-row-pure-apply-enumerate', 'engine/_row_cy.py',
+         sub('        res: List[Any] = list(data)\n        proc_size = len(proc)\n        # TODO: would be nice to do this only on the fist row\n        assert len(res) == proc_size\n        for i in range(proc_size):\n            p = proc[i]\n            if p is not None:\n                res[i] = p(res[i])\n        return tuple(res)\n',
+             '        res: List[Any] = list(data)\n        # TODO: would be nice to do this only on the fist row\n        assert len(res) == len(proc)\n        for i, p in enumerate(proc):\n            if p is None:\n                continue\n            res[i] = p(res[i])\n        return tuple(res)\n'), None)
+R.mutant('benign-row-pure-apply-ternary-in-loop', 'engine/_row_cy.py',
+         sub('        res: List[Any] = list(data)\n        proc_size = len(proc)\n        # TODO: would be nice to do this only on the fist row\n        assert len(res) == proc_size\n        for i in range(proc_size):\n            p = proc[i]\n            if p is not None:\n                res[i] = p(res[i])\n        return tuple(res)\n',
+             '        res: List[Any] = list(data)\n        proc_size = len(proc)\n        # TODO: would be nice to do this only on the fist row\n        assert len(res) == proc_size\n        for i in range(proc_size):\n            p = proc[i]\n            value = res[i]\n            res[i] = p(value) if p is not None else value\n        return tuple(res)\n'), None)
+R.mutant('benign-row-set-attrs-arms-swapped', 'engine/_row_cy.py',
+         sub('        if cython.compiled:\n            # cython does not use __setattr__\n            self._parent = parent\n            self._key_to_index = key_to_index\n            self._data = data\n        else:\n            # python does, so use object.__setattr__\n            object.__setattr__(self, "_parent", parent)\n            object.__setattr__(self, "_key_to_index", key_to_index)\n            object.__setattr__(self, "_data", data)\n',
+             '        if not cython.compiled:\n            # python uses __setattr__, so go through object.__setattr__\n            setter = object.__setattr__\n            setter(self, "_parent", parent)\n            setter(self, "_data", data)\n            setter(self, "_key_to_index", key_to_index)\n        else:\n            # cython does not use __setattr__\n            self._parent = parent\n            self._key_to_index = key_to_index\n            self._data = data\n'), None)
+R.mutant('benign-result-pure-apply-two-locals', 'engine/_result_cy.py',
+         sub('        res = list(data)\n        for i in proc_valid:\n            res[i] = proc[i](res[i])\n        return tuple(res)\n',
+             '        res = list(data)\n        for pos in proc_valid:\n            fn = proc[pos]\n            raw = res[pos]\n            res[pos] = fn(raw)\n        out = tuple(res)\n        return out\n'), None)
+R.mutant('benign-result-pure-many-rows-map', 'engine/_result_cy.py',
+         sub('                return [single_row(row) for row in rows]\n',
+             '                return list(map(single_row, rows))\n'), None)
+R.mutant('benign-result-compiled-many-rows-inline-size', 'engine/_result_cy.py',
+         sub('                size: cython.Py_hash_t = len(rows)\n                i: cython.Py_ssize_t\n                result: list = PyList_New(size)\n                for i in range(size):\n                    row: object = single_row(rows[i])\n',
+             '                n_rows: cython.Py_hash_t = len(rows)\n                i: cython.Py_ssize_t\n                result: list = PyList_New(n_rows)\n                for i in range(n_rows):\n                    raw = rows[i]\n                    row: object = single_row(raw)\n'), None)
+R.mutant('benign-result-caller-valid-indexes-by-loop', 'engine/_result_cy.py',
+         sub('            proc_valid = tuple(\n                [i for i, p in enumerate(processors) if p is not None]\n            )\n',
+             '            valid = []\n            for i, p in enumerate(processors):\n                if p is not None:\n                    valid.append(i)\n            proc_valid = tuple(valid)\n'), None)
+R.mutant('benign-result-caller-valid-indexes-inverted-filter', 'engine/_result_cy.py',
+         sub('            proc_valid = tuple(\n                [i for i, p in enumerate(processors) if p is not None]\n            )\n',
+             '            proc_valid = tuple(\n                i for i, p in enumerate(processors) if not (p is None)\n            )\n'), None)
+R.mutant('benign-unique-list-pure-explicit-dict', 'util/_collections_cy.py',
+         sub('    else:\n        return list(dict.fromkeys(seq))\n',
+             '    else:\n        ordered = dict.fromkeys(seq)\n        return list(ordered)\n'), None)
+R.mutant('benign-unique-list-compiled-loop', 'util/_collections_cy.py',
+         sub('        seen: Set[_T] = set()\n        return [x for x in seq if x not in seen and not set.add(seen, x)]\n',
+             '        seen: Set[_T] = set()\n        out = []\n        for x in seq:\n            if x in seen:\n                continue\n            set.add(seen, x)\n            out.append(x)\n        return out\n'), None)
+R.mutant('benign-bint-return-via-local', 'util/_collections_cy.py',
+         sub('        return self._members.keys() <= other._members.keys()',
+             '        covered = self._members.keys() <= other._members.keys()\n        return covered'), None)
+R.mutant('row-pure-apply-enumerate-skips-falsy-processor', 'engine/_row_cy.py',
+         sub('        res: List[Any] = list(data)\n        proc_size = len(proc)\n        # TODO: would be nice to do this only on the fist row\n        assert len(res) == proc_size\n        for i in range(proc_size):\n            p = proc[i]\n            if p is not None:\n                res[i] = p(res[i])\n        return tuple(res)\n',
+             '        res: List[Any] = list(data)\n        assert len(res) == len(proc)\n        for i, p in enumerate(proc):\n            if not p:\n                continue\n            res[i] = p(res[i])\n        return tuple(res)\n'), 'C55-R4')
+R.mutant('caller-valid-indexes-loop-loses-none-filter', 'engine/_result_cy.py',
+         sub('            proc_valid = tuple(\n                [i for i, p in enumerate(processors) if p is not None]\n            )\n',
+             '            valid = []\n            for i, p in enumerate(processors):\n                valid.append(i)\n            proc_valid = tuple(valid)\n'), 'C55-R5')
+R.mutant('bint-local-holds-object', 'util/_collections_cy.py',
+         sub('        return self._members.keys() <= other._members.keys()',
+             '        covered = other._members or self._members\n        return covered'), 'C55-R3')
+R.mutant('ctyped-local-from-untyped-element-local', 'engine/_result_cy.py',
+         sub('        flag: cython.char = _FLAG_SIMPLE\n',
+             '        first = metadata._keys[0]\n        flag: cython.char = first\n'), 'C55-R3')
+R.mutant('benign-ctyped-local-from-untyped-len-local', 'engine/_result_cy.py',
+         sub('        proc_size: cython.Py_ssize_t = len(processors)\n',
+             '        n_processors = len(processors)\n        proc_size: cython.Py_ssize_t = n_processors\n'), None)
+R.mutant('benign-all-cython-modules-via-local-merged-imports', 'util/_has_cython.py',
+         sub('    from ..engine import _processors_cy\n    from ..engine import _result_cy\n    from ..engine import _row_cy\n    from ..engine import _util_cy as engine_util\n    from ..sql import _util_cy as sql_util\n\n    return (\n        _collections_cy,\n        _immutabledict_cy,\n        _processors_cy,\n        _result_cy,\n        _row_cy,\n        engine_util,\n        sql_util,\n    )\n',
+             '    from ..engine import _processors_cy, _result_cy, _row_cy\n    from ..engine import _util_cy as engine_util\n    from ..sql import _util_cy as sql_util\n\n    modules = [\n        _collections_cy,\n        _immutabledict_cy,\n        _processors_cy,\n        _result_cy,\n        _row_cy,\n        engine_util,\n        sql_util,\n    ]\n    return tuple(modules)\n'), None)
+R.mutant('all-cython-modules-local-list-misses-row', 'util/_has_cython.py',
+         sub('    return (\n        _collections_cy,\n        _immutabledict_cy,\n        _processors_cy,\n        _result_cy,\n        _row_cy,\n        engine_util,\n        sql_util,\n    )\n',
+             '    modules = [\n        _collections_cy,\n        _immutabledict_cy,\n        _processors_cy,\n        _result_cy,\n        engine_util,\n        sql_util,\n    ]\n    return tuple(modules)\n'), 'C55-R2')
+R.mutant('benign-many-rows-arms-swapped', 'engine/_result_cy.py',
+         sub('        if cython.compiled:\n\n            def many_rows(rows: Sequence[Any], /) -> list[Any]:\n                size: cython.Py_hash_t = len(rows)\n                i: cython.Py_ssize_t\n                result: list = PyList_New(size)\n                for i in range(size):\n                    row: object = single_row(rows[i])\n                    Py_INCREF(row)\n                    PyList_SET_ITEM(result, i, row)\n                return result\n\n        else:\n\n            def many_rows(rows: Sequence[Any], /) -> list[Any]:\n                return [single_row(row) for row in rows]\n',
+             '        if not cython.compiled:\n\n            def many_rows(rows: Sequence[Any], /) -> list[Any]:\n                return [single_row(row) for row in rows]\n\n        else:\n\n            def many_rows(rows: Sequence[Any], /) -> list[Any]:\n                size: cython.Py_hash_t = len(rows)\n                i: cython.Py_ssize_t\n                result: list = PyList_New(size)\n                for i in range(size):\n                    row: object = single_row(rows[i])\n                    Py_INCREF(row)\n                    PyList_SET_ITEM(result, i, row)\n                return result\n'), None)
+R.mutant('benign-row-cimports-merged', 'engine/_row_cy.py',
+         sub('    from cython.cimports.cpython import PyTuple_New\n    from cython.cimports.cpython import Py_INCREF\n    from cython.cimports.cpython import PyTuple_SET_ITEM\n',
+             '    from cython.cimports.cpython import (\n        PyTuple_New,\n        Py_INCREF,\n        PyTuple_SET_ITEM,\n    )\n'), None)
+R.mutant('benign-row-compiled-apply-continue-and-locals', 'engine/_row_cy.py',
+         sub('            p = proc[i]\n            if p is not None:\n                value = p(data[i])\n            else:\n                value = data[i]\n            Py_INCREF(value)\n            PyTuple_SET_ITEM(res, i, value)\n        return res\n',
+             '            p = proc[i]\n            value = data[i]\n            if p is not None:\n                value = p(value)\n            Py_INCREF(value)\n            PyTuple_SET_ITEM(res, i, value)\n        return res\n'), None)
+R.mutant('benign-row-init-ternary-unrolled', 'engine/_row_cy.py',
+         sub('        self._set_attrs(\n            parent,\n            key_to_index,\n            (\n                _apply_processors(processors, data)\n                if processors is not None\n                else data if isinstance(data, tuple) else tuple(data)\n            ),\n        )\n',
+             '        if processors is not None:\n            row_data = _apply_processors(processors, data)\n        elif isinstance(data, tuple):\n            row_data = data\n        else:\n            row_data = tuple(data)\n        self._set_attrs(parent, key_to_index, row_data)\n'), None)
+R.mutant('benign-is-contiguous-test-inverted-continue', 'engine/_util_cy.py',
+         sub('        if prev != curr - 1:\n            return False\n    return True\n',
+             '        if prev == curr - 1:\n            continue\n        return False\n    return True\n'), None)
+R.mutant('benign-tuplegetter-de-morgan', 'engine/_util_cy.py',
+         sub('    if len(indexes) == 1 or _is_contiguous(indexes):\n        # slice form is faster but returns a list if input is list\n        max_index = indexes[-1]\n        return operator.itemgetter(slice(indexes[0], max_index + 1))\n    else:\n        return operator.itemgetter(*indexes)\n',
+             '    if len(indexes) != 1 and not _is_contiguous(indexes):\n        return operator.itemgetter(*indexes)\n    else:\n        # slice form is faster but returns a list if input is list\n        max_index = indexes[-1]\n        return operator.itemgetter(slice(indexes[0], max_index + 1))\n'), None)
+R.mutant('benign-is-contiguous-result-local', 'engine/_util_cy.py',
+         sub('        if prev != curr - 1:\n            return False\n    return True\n',
+             '        if prev != curr - 1:\n            contiguous = False\n            return contiguous\n    return True\n'), None)
